@@ -14,7 +14,8 @@ From RU Require Proofs.C04_Inventory Proofs.C04_Cost Proofs.C04_CostPath Proofs.
   Proofs.C04_ParseTotal Proofs.C04_PathFile Proofs.C04_ParseFile Proofs.C06_List Proofs.C04_Utf8
   Proofs.C04_NoPanic Proofs.C04_Puny Proofs.C13_Known Proofs.C15_Main Proofs.C15_Ser Proofs.C09_Reject
   Proofs.C06_Main Proofs.C03_WF Proofs.C02_PathL1 Proofs.Idna_Api Proofs.Idna_Hyp Proofs.Idna_Known
-  Proofs.C04_PathCtx Proofs.C04_SetPath Proofs.C04_SetHost Proofs.C04_ParseFile7 Proofs.C06_Host.
+  Proofs.C04_PathCtx Proofs.C04_SetPath Proofs.C04_SetHost Proofs.C04_ParseFile7 Proofs.C06_Host
+  Proofs.C04_Uts46_Inner Proofs.C04_Uts46_Api Proofs.Idna_C10_Inner.
 From RU Require Properties.C03 Properties.C06 Properties.C09 Properties.C10 Properties.C11 Properties.C13
   Properties.C14 Properties.C15 Properties.C16 Properties.C18 Properties.C19 Properties.C20.
 
@@ -149,6 +150,81 @@ Check C04_no_panic_uts46_partial : forall A cfg d deny hy p, bytes d -> Uts46.fa
   Uts46.to_ascii A cfg d deny hy Uts46.DIgnore = U32_c13.Ok (true, d)
   /\ Uts46.to_user_interface A cfg d deny hy p = Uts46.UI true d false.
 Print Assumptions C04_no_panic_uts46_partial.
+
+(* proved beyond the fastest tier (Proofs/C04_Uts46_Inner.v): the whole label pipeline process_inner - ASCII fast
+   paths, mapping and normalization, Punycode decoding and re-validation, check_label with ContextJ, the bidi
+   rule - reaches none of its panic sites (the decoder's overflow panics: its input is capped at 2000 code units;
+   uts46.rs 1275, 1618, 1590, 1650), for EVERY byte input, every deny list and hyphen mode, both error modes and
+   both configurations, for every adapter whose normalizer functions return code points below 2^32 other than
+   U+200F (AdapterNP).  The hypothesis is needed (second part: with the identity adapter the input U+200F fails
+   debug_assert_ne!(c, RLM) in is_bidi).
+   STILL MISSING w.r.t. C04_no_panic_uts46_statement: the debug assertions and unwraps of the two output walks of
+   process (782, 789, 805-899, 928-992) and the unreachable!() behind the Punycode encoder (445); they need the
+   positional invariant between passthrough_up_to, domain_buffer and already_punycode in BOTH error modes. *)
+Theorem C04_no_panic_uts46_partial2 :
+  (forall A cfg ff hy deny d, C04_Uts46_Inner.AdapterNP A -> bytes d ->
+     forall site, Uts46.process_inner A cfg ff hy deny d <> Uts46.IPanic site)
+  /\ Uts46.process_inner C04_Uts46_Inner.id_adapter true false Uts46.HAllow Uts46.DENY_EMPTY [226; 128; 143] = Uts46.IPanic 1650.
+Proof.
+  split.
+  - intros A cfg ff hy deny d HA Hb site. exact (C04_Uts46_Inner.process_inner_np A cfg HA ff hy deny d Hb site).
+  - exact C04_Uts46_Inner.np_needed.
+Qed.
+Check C04_no_panic_uts46_partial2 :
+  (forall A cfg ff hy deny d, C04_Uts46_Inner.AdapterNP A -> bytes d ->
+     forall site, Uts46.process_inner A cfg ff hy deny d <> Uts46.IPanic site)
+  /\ Uts46.process_inner C04_Uts46_Inner.id_adapter true false Uts46.HAllow Uts46.DENY_EMPTY [226; 128; 143] = Uts46.IPanic 1650.
+Print Assumptions C04_no_panic_uts46_partial2.
+
+(* finding F-C04-13, exactly: when the processing wrote its output, the deprecated Idna::to_ascii(domain, out)
+   panics iff debug assertions are on, verify_dns_length is configured and the UTF-8 text of  out ++ written  is
+   not ASCII (the check is applied to the whole of `out`); witness: out = "e-acute", domain "e-acute x" *)
+Theorem C04_13_exact : forall A cfg c domain out s x,
+  Uts46.process A cfg true Uts46.never_unicode
+    (utf8_encode (Uts46.map_transitional domain (Uts46.transitional_processing c)))
+    (Uts46.config_deny_list c) (Uts46.config_hyphens c) None None false = (Uts46.PWroteToSink, s, x) ->
+  (U32_c13.is_panic (Uts46.idna_to_ascii A cfg c domain out) = true
+   <-> cfg = true /\ Uts46.cfg_verify_dns_length c = true /\ Uts46.is_ascii_l (utf8_encode (out ++ s)) = false).
+Proof. exact C04_Uts46_Api.idna_to_ascii_wrote. Qed.
+Check C04_13_exact : forall A cfg c domain out s x,
+  Uts46.process A cfg true Uts46.never_unicode
+    (utf8_encode (Uts46.map_transitional domain (Uts46.transitional_processing c)))
+    (Uts46.config_deny_list c) (Uts46.config_hyphens c) None None false = (Uts46.PWroteToSink, s, x) ->
+  (U32_c13.is_panic (Uts46.idna_to_ascii A cfg c domain out) = true
+   <-> cfg = true /\ Uts46.cfg_verify_dns_length c = true /\ Uts46.is_ascii_l (utf8_encode (out ++ s)) = false).
+Print Assumptions C04_13_exact.
+
+Theorem C04_13_refuted :
+  Uts46.idna_to_ascii Idna_Known.toy true C04_Uts46_Api.cfg_verify [233; 120] [233] = U32_c13.Panic 468
+  /\ Uts46.idna_to_ascii Idna_Known.toy false C04_Uts46_Api.cfg_verify [233; 120] [233]
+     = U32_c13.Ok [233; 120; 110; 45; 45; 120; 45; 57; 102; 97]
+  /\ Uts46.idna_to_ascii Idna_Known.toy true C04_Uts46_Api.cfg_verify [233; 120] []
+     = U32_c13.Ok [120; 110; 45; 45; 120; 45; 57; 102; 97].
+Proof. exact C04_Uts46_Api.c04_13_witness. Qed.
+Check C04_13_refuted :
+  Uts46.idna_to_ascii Idna_Known.toy true C04_Uts46_Api.cfg_verify [233; 120] [233] = U32_c13.Panic 468
+  /\ Uts46.idna_to_ascii Idna_Known.toy false C04_Uts46_Api.cfg_verify [233; 120] [233]
+     = U32_c13.Ok [233; 120; 110; 45; 45; 120; 45; 57; 102; 97]
+  /\ Uts46.idna_to_ascii Idna_Known.toy true C04_Uts46_Api.cfg_verify [233; 120] []
+     = U32_c13.Ok [120; 110; 45; 45; 120; 45; 57; 102; 97].
+Print Assumptions C04_13_refuted.
+
+(* finding F-C11-2 (the class Known_C11 excluded by C04_no_panic_uts46_statement): to_user_interface("1a.xn--4db")
+   with a never-Unicode policy fails debug_assert!(!had_errors) at uts46.rs:899 *)
+Theorem C04_c11_2_refuted :
+  Idna_Known.Known_C11 Idna_Known.toy false Idna_Known.W_C11_2 Uts46.DENY_EMPTY Uts46.HAllow = true
+  /\ Uts46.to_user_interface Idna_Known.toy true Idna_Known.W_C11_2 Uts46.DENY_EMPTY Uts46.HAllow Uts46.never_unicode
+     = Uts46.UIPanic 899
+  /\ Uts46.to_user_interface Idna_Known.toy false Idna_Known.W_C11_2 Uts46.DENY_EMPTY Uts46.HAllow Uts46.never_unicode
+     = Uts46.UI true Idna_Known.W_C11_2 false.
+Proof. destruct Idna_Known.w_c11_2 as (H1 & _ & H3 & H4). exact (conj H1 (conj H4 H3)). Qed.
+Check C04_c11_2_refuted :
+  Idna_Known.Known_C11 Idna_Known.toy false Idna_Known.W_C11_2 Uts46.DENY_EMPTY Uts46.HAllow = true
+  /\ Uts46.to_user_interface Idna_Known.toy true Idna_Known.W_C11_2 Uts46.DENY_EMPTY Uts46.HAllow Uts46.never_unicode
+     = Uts46.UIPanic 899
+  /\ Uts46.to_user_interface Idna_Known.toy false Idna_Known.W_C11_2 Uts46.DENY_EMPTY Uts46.HAllow Uts46.never_unicode
+     = Uts46.UI true Idna_Known.W_C11_2 false.
+Print Assumptions C04_c11_2_refuted.
 
 (* Host::parse / Host::parse_opaque: every input, '['-led IPv6 literals included (C09_total) *)
 Theorem C04_no_panic_host :
@@ -614,6 +690,26 @@ Check C04_utf8_uts46_partial : forall A cfg ff p d deny hy k1 k2 w, bytes d -> U
   Uts46.process A cfg ff p d deny hy k1 k2 w = (Uts46.PPassthrough, [], []) /\ ascii d.
 Print Assumptions C04_utf8_uts46_partial.
 
+(* beyond the fastest tier, for the fail-fast entry point: EVERY string Uts46::to_ascii returns - the borrowed input
+   (Passthrough, uts46.rs:549: the from_utf8_unchecked site) or the owned output - is ASCII, hence valid UTF-8,
+   for every byte input (invalid UTF-8 included), every deny list the API can build and every adapter with
+   NvNoTrunc (normalize_validate never returns a proper prefix of its argument); from the C10 output theorem.
+   STILL MISSING w.r.t. C04_utf8_uts46_statement: the mark-errors mode (to_unicode / to_user_interface Passthrough). *)
+Theorem C04_utf8_uts46_partial2 : forall A cfg d deny hy dns b r,
+  Idna_C10_Inner.NvNoTrunc A -> bytes d -> Idna_Hyp.valid_deny deny ->
+  Uts46.to_ascii A cfg d deny hy dns = U32_c13.Ok (b, r) ->
+  Forall (fun c => c < 128) r /\ (b = true -> r = d).
+Proof.
+  intros A cfg d deny hy dns b r HN Hb Hv H. split.
+  - exact (C04_Uts46_Api.to_ascii_returns_ascii A cfg d deny hy dns b r HN Hb Hv H).
+  - intros ->. exact (Idna_Api.to_ascii_borrow A cfg d deny hy dns r H).
+Qed.
+Check C04_utf8_uts46_partial2 : forall A cfg d deny hy dns b r,
+  Idna_C10_Inner.NvNoTrunc A -> bytes d -> Idna_Hyp.valid_deny deny ->
+  Uts46.to_ascii A cfg d deny hy dns = U32_c13.Ok (b, r) ->
+  Forall (fun c => c < 128) r /\ (b = true -> r = d).
+Print Assumptions C04_utf8_uts46_partial2.
+
 (* ================================================================== 5. cost *)
 (* each twin computes the original function, and its step count is linear *)
 Theorem C04_cost_percent_encoding : forall S bs,
@@ -838,3 +934,11 @@ Example C04_setters2_premises_hold :
              Setters.SOk)
   /\ Setters.set_path true u [46;46;47;120;63] = Some (mkUrl [104;116;116;112;58;47;47;104;47;120;37;51;70;63;113] 4 7 7 8 HI_Domain None 8 (Some 13) None).
 Proof. cbv zeta. vm_compute. repeat split; reflexivity. Qed.
+
+(* C04_no_panic_uts46_partial2 / C04_utf8_uts46_partial2: the toy adapter of Idna_Known (identity normalizers on the
+   witness inputs) meets NvNoTrunc; a mixed input goes through the whole pipeline without panic *)
+Example C04_uts46_premises_hold :
+  Idna_C10_Inner.NvNoTrunc Idna_Known.toy
+  /\ Uts46.to_ascii Idna_Known.toy true [98; 195; 188; 99; 104; 101; 114; 46; 100; 101] Uts46.DENY_EMPTY Uts46.HAllow Uts46.DIgnore
+     = U32_c13.Ok (false, [120; 110; 45; 45; 98; 99; 104; 101; 114; 45; 107; 118; 97; 46; 100; 101]).
+Proof. split; [exact Idna_C10_Walk.toy_notrunc | vm_compute; reflexivity]. Qed.
